@@ -91,37 +91,6 @@ Theorem spec_loop_order_independent : forall ss ss',
   Permutation ss ss' -> (ret (UParam ss) = 0 <-> ret (UParam ss') = 0).
 Proof. intros. rewrite !ret_param. apply first_failure_order_independent; assumption. Qed.
 
-(* ---------------------------------------------------------------- the compiler *)
-Lemma exit_zero : forall us, exit_status us = 0 <-> top_ret us = 0.
-Proof.
-  intro us. unfold exit_status. destruct (top_ret us =? 0) eqn:E.
-  - apply Z.eqb_eq in E. split; intro; [assumption | reflexivity].
-  - apply Z.eqb_neq in E. split; intro H; [discriminate | contradiction].
-Qed.
-
-Theorem exit_zero_iff_all_units_ok : forall us,
-  forallb members_ok us = true -> (exit_status us = 0 <-> forallb all_ok us = true).
-Proof.
-  intros us Hm. rewrite exit_zero. unfold top_ret. rewrite first_failure_zero_iff.
-  rewrite forallb_forall in *. rewrite Forall_forall.
-  split; intros H x Hx.
-  - apply (ret_zero_iff x (Hm x Hx)). apply H; exact Hx.
-  - apply (ret_zero_iff x (Hm x Hx)). apply H; exact Hx.
-Qed.
-
-Theorem exit_order_independent : forall us us',
-  Permutation us us' -> (exit_status us = 0 <-> exit_status us' = 0).
-Proof. intros. rewrite !exit_zero. apply first_failure_order_independent; assumption. Qed.
-
-Theorem exit_is_first_failure : forall us,
-  exit_status us <> 0 ->
-  exists pre u post, us = pre ++ u :: post /\ Forall (fun y => ret y = 0) pre /\ ret u <> 0.
-Proof.
-  intros us H. assert (Hr : top_ret us <> 0) by (intro E; apply H; apply exit_zero; exact E).
-  destruct (first_failure_is_first _ ret us Hr) as (pre & u & post & Hl & Hp & _ & Hn).
-  exists pre, u, post. repeat split; assumption.
-Qed.
-
 (* ---------------------------------------------------------------- diagnostics *)
 Lemma sum_nat_zero : forall (A : Type) (f : A -> nat) (l : list A),
   Forall (fun x => f x = O) l -> sum_nat f l = O.
@@ -129,11 +98,24 @@ Proof.
   intros A f l H. induction H as [|x r Hx _ IH]; simpl; [reflexivity | rewrite Hx, IH; reflexivity].
 Qed.
 
+Lemma sum_nat_zero_inv : forall (A : Type) (f : A -> nat) (l : list A),
+  sum_nat f l = O -> Forall (fun x => f x = O) l.
+Proof.
+  intros A f l. induction l as [|x r IH]; simpl; intro H; constructor; [lia | apply IH; lia].
+Qed.
+
 Lemma lines_until_zero : forall (A : Type) (rt : A -> Z) (ft : A -> nat) (l : list A),
   Forall (fun x => ft x = O) l -> lines_until rt ft l = O.
 Proof.
   intros A rt ft l H. induction H as [|x r Hx _ IH]; simpl; [reflexivity|].
   rewrite Hx, IH. destruct (rt x =? 0); reflexivity.
+Qed.
+
+Lemma lines_until_zero_inv : forall (A : Type) (rt : A -> Z) (ft : A -> nat) (l : list A),
+  Forall (fun x => rt x = 0) l -> lines_until rt ft l = O -> Forall (fun x => ft x = O) l.
+Proof.
+  intros A rt ft l H. induction H as [|x r Hx _ IH]; simpl; intro E; [constructor|].
+  rewrite Hx in E. simpl in E. constructor; [lia | apply IH; lia].
 Qed.
 
 Lemma all_ok_quiet : forall u, all_ok u = true -> ret u = 0 /\ fatals u = O.
@@ -149,6 +131,22 @@ Proof.
     rewrite lines_until_zero; [reflexivity|]. rewrite Forall_forall. intros x Hx. apply (IH x Hx). apply H; exact Hx.
 Qed.
 
+(* the converse: a unit that prints no `Cannot compile` line has no failing part anywhere below it *)
+Lemma fatals_zero_all_ok : forall u, fatals u = O -> all_ok u = true.
+Proof.
+  induction u as [own ms IH | ss IH] using eunit_ind'; intro H.
+  - simpl in H. destruct own; [|lia]. simpl.
+    assert (Hs : sum_nat fatals ms = O) by lia.
+    apply sum_nat_zero_inv in Hs. rewrite forallb_forall. rewrite Forall_forall in *.
+    intros x Hx. apply (IH x Hx). apply Hs; exact Hx.
+  - simpl in H. destruct (first_failure ret ss =? 0) eqn:E; [|lia]. apply Z.eqb_eq in E.
+    apply first_failure_zero_iff in E.
+    assert (Hl : lines_until ret fatals ss = O) by lia.
+    apply (lines_until_zero_inv _ ret fatals ss E) in Hl.
+    simpl. rewrite forallb_forall. rewrite Forall_forall in *.
+    intros x Hx. apply (IH x Hx). apply Hl; exact Hx.
+Qed.
+
 (* a failing unit prints at least one FATAL line (and writes at least one #error line) *)
 Lemma failure_is_diagnosed : forall u, ret u <> 0 -> (fatals u >= 1)%nat.
 Proof.
@@ -157,35 +155,90 @@ Proof.
   - destruct (first_failure ret ss =? 0) eqn:E; [apply Z.eqb_eq in E; contradiction | lia].
 Qed.
 
-Theorem rejected_is_diagnosed : forall us, exit_status us <> 0 -> (top_fatals us >= 1)%nat.
+Lemma top_ret_is_diagnosed : forall us, top_ret us <> 0 -> (top_fatals us >= 1)%nat.
 Proof.
-  intros us H. assert (Hr : top_ret us <> 0) by (intro E; apply H; apply exit_zero; exact E).
-  clear H. unfold top_ret, top_fatals in *. induction us as [|u r IH].
+  intros us Hr. unfold top_ret, top_fatals in *. induction us as [|u r IH].
   - simpl in Hr. contradiction.
   - rewrite first_failure_cons in Hr. simpl. destruct (ret u =? 0) eqn:E.
     + specialize (IH Hr). lia.
     + lia.
 Qed.
 
-(* the oracle of the check, as a theorem about the model: on inputs where no embedded component fails,
-   a FATAL line is printed iff the exit status is non-zero *)
-Theorem fatal_iff_nonzero_exit : forall us,
-  forallb members_ok us = true -> (top_fatals us = O <-> exit_status us = 0).
+Lemma top_fatals_zero_iff : forall us, top_fatals us = O <-> forallb all_ok us = true.
 Proof.
-  intros us Hm. split; intro H.
-  - destruct (Z.eq_dec (exit_status us) 0) as [E|E]; [exact E|].
-    pose proof (rejected_is_diagnosed us E). lia.
-  - apply (exit_zero_iff_all_units_ok us Hm) in H. rewrite forallb_forall in H.
-    unfold top_fatals. apply lines_until_zero. rewrite Forall_forall. intros x Hx.
-    destruct (all_ok_quiet x (H x Hx)) as [Hr Hf]. rewrite Hr, Hf. reflexivity.
+  intro us. unfold top_fatals. induction us as [|u r IH]; [simpl; split; reflexivity|].
+  simpl. destruct (ret u =? 0) eqn:E.
+  - split; intro H.
+    + assert (Hu : fatals u = O) by lia. rewrite (fatals_zero_all_ok u Hu). simpl. apply IH. lia.
+    + apply andb_true_iff in H. destruct H as [Hu Hr]. destruct (all_ok_quiet u Hu) as [_ Hf]. rewrite Hf.
+      apply IH in Hr. lia.
+  - split; intro H; [lia|]. apply andb_true_iff in H. destruct H as [Hu _].
+    destruct (all_ok_quiet u Hu) as [Hr _]. apply Z.eqb_neq in E. contradiction.
 Qed.
 
-(* ---------------------------------------------------------------- what does NOT hold *)
-(* the full statement, components included: the result of EMBED is dropped *)
-Theorem exit_zero_iff_all_ok_refuted :
-  exists us, exit_status us = 0 /\ forallb all_ok us = false /\ (top_fatals us >= 1)%nat.
-Proof. exists [UType true [UType false []]]. split; [reflexivity | split; [reflexivity | simpl; lia]]. Qed.
+(* ---------------------------------------------------------------- the compiler *)
+(* the exit status is zero iff no `Cannot compile` line was printed (the counter test subsumes the returned status) *)
+Lemma exit_zero : forall us, exit_status us = 0 <-> top_fatals us = O.
+Proof.
+  intro us. unfold exit_status. destruct (top_ret us =? 0) eqn:E; simpl.
+  - destruct (Nat.eqb (top_fatals us) 0) eqn:F.
+    + apply Nat.eqb_eq in F. split; intro; [assumption | reflexivity].
+    + apply Nat.eqb_neq in F. split; intro H; [discriminate | contradiction].
+  - apply Z.eqb_neq in E. pose proof (top_ret_is_diagnosed us E) as Hd. split; intro H; [discriminate | lia].
+Qed.
 
+(* THE statement: asn1c exits 0 iff every unit, component and specialization could be emitted *)
+Theorem exit_zero_iff_all_ok : forall us, exit_status us = 0 <-> forallb all_ok us = true.
+Proof. intro us. rewrite exit_zero. apply top_fatals_zero_iff. Qed.
+
+Lemma forallb_perm : forall (A : Type) (f : A -> bool) (l l' : list A),
+  Permutation l l' -> (forallb f l = true <-> forallb f l' = true).
+Proof.
+  intros A f l l' Hp. rewrite !forallb_forall. split; intros H x Hx; apply H.
+  - eapply Permutation_in; [apply Permutation_sym; exact Hp | exact Hx].
+  - eapply Permutation_in; [exact Hp | exact Hx].
+Qed.
+
+Theorem exit_order_independent : forall us us',
+  Permutation us us' -> (exit_status us = 0 <-> exit_status us' = 0).
+Proof. intros us us' Hp. rewrite !exit_zero_iff_all_ok. apply forallb_perm; exact Hp. Qed.
+
+(* a refused input has a top-level expression with a failing part; when the loop itself stopped it is the first
+   expression whose emitter returned non-zero *)
+Theorem exit_nonzero_has_culprit : forall us,
+  exit_status us <> 0 -> exists pre u post, us = pre ++ u :: post /\ all_ok u = false.
+Proof.
+  intros us H. assert (Hf : forallb all_ok us <> true) by (intro E; apply H; apply exit_zero_iff_all_ok; exact E).
+  induction us as [|u r IH].
+  - simpl in Hf. exfalso. apply Hf. reflexivity.
+  - simpl in Hf. destruct (all_ok u) eqn:Eu.
+    + simpl in Hf. destruct IH as (pre & v & post & Hl & Hv).
+      * intro E. apply Hf. apply exit_zero_iff_all_ok. exact E.
+      * exact Hf.
+      * exists (u :: pre), v, post. subst r. split; [reflexivity | exact Hv].
+    + exists [], u, r. split; [reflexivity | exact Eu].
+Qed.
+
+Theorem top_ret_is_first_failure : forall us,
+  top_ret us <> 0 ->
+  exists pre u post, us = pre ++ u :: post /\ Forall (fun y => ret y = 0) pre /\ ret u <> 0.
+Proof.
+  intros us Hr.
+  destruct (first_failure_is_first _ ret us Hr) as (pre & u & post & Hl & Hp & _ & Hn).
+  exists pre, u, post. repeat split; assumption.
+Qed.
+
+Theorem rejected_is_diagnosed : forall us, exit_status us <> 0 -> (top_fatals us >= 1)%nat.
+Proof.
+  intros us H. destruct (top_fatals us) eqn:E; [|lia]. exfalso. apply H. apply exit_zero. exact E.
+Qed.
+
+(* the oracle of the check, as a theorem about the model: a FATAL `Cannot compile` line is printed iff the exit
+   status is non-zero *)
+Theorem fatal_iff_nonzero_exit : forall us, top_fatals us = O <-> exit_status us = 0.
+Proof. intro us. symmetry. apply exit_zero. Qed.
+
+(* ---------------------------------------------------------------- what does NOT hold *)
 (* the last-wins loop (seeded change C10-6): accepted although a specialization failed, and the verdict depends on the order *)
 Theorem last_wins_refuted :
   exists us, forallb members_ok us = true /\ exit_last us = 0 /\ forallb all_ok us = false.
